@@ -190,7 +190,7 @@ mod imp {
                 let n = 1 + self.rng.below(6);
                 let lit = self.rng.pick(&LITS).to_string();
                 let calls = 2 + self.rng.below(2);
-                match self.rng.below(7) {
+                match self.rng.below(9) {
                     0 => {
                         // global slot, plain function
                         p.push(format!("let mut h{k} = fn(a) {{\n    let nxt = fn(b) {{ return \"{lit}-later\" + b }}\n    h{k} = nxt\n    let g = churn({n})\n    return \"{lit}-first\" + a + g\n}}"));
@@ -220,6 +220,33 @@ mod imp {
                         // two self-replacing handlers nested: collection happens three frames deep
                         p.push(format!("let mut inner{k} = fn(d) {{\n    let nxt = fn(e) {{ return \"{lit}-i2\" }}\n    inner{k} = nxt\n    return \"{lit}-i1\" + churn(d)\n}}\nlet mut outer{k} = fn(d) {{\n    let nxt = fn(e) {{ return \"{lit}-o2\" }}\n    outer{k} = nxt\n    return \"{lit}-o1\" + inner{k}(d) + churn(2)\n}}"));
                         for _ in 0..calls { p.push(format!("println(outer{k}({n}))")); }
+                    }
+                    7 | 8 => {
+                        // a chain of 2..4 capturing closures in globals; each unregisters itself and calls the
+                        // next, the last one allocates: during those collections SEVERAL running closures are
+                        // referenced by nothing but their own frames (registers of the setup calls scrubbed)
+                        let d = 2 + self.rng.below(3);
+                        let mut t = String::new();
+                        for j in 1..=d {
+                            t.push_str(&format!("let mut hc{k}_{j} = null\n"));
+                        }
+                        for j in 1..=d {
+                            if j < d {
+                                t.push_str(&format!("fn mkc{k}_{j}(tag) {{\n    let label = \"{lit}{j}:\" + tag\n    return fn() {{\n        hc{k}_{j} = 0\n        let inner = hc{k}_{}()\n        return inner + \"|\" + label\n    }}\n}}\n", j + 1));
+                            } else {
+                                t.push_str(&format!("fn mkc{k}_{j}(tag) {{\n    let label = \"{lit}{j}:\" + tag\n    return fn() {{\n        hc{k}_{j} = 0\n        let g = churn({n})\n        return label + g\n    }}\n}}\n"));
+                            }
+                        }
+                        t.push_str(&format!("fn setup{k}() {{\n"));
+                        // creation order decides which closure has the lower heap index
+                        let order: Vec<u64> = if self.rng.chance(1, 2) { (1..=d).collect() } else { (1..=d).rev().collect() };
+                        for j in order {
+                            t.push_str(&format!("    hc{k}_{j} = mkc{k}_{j}(\"{j}\")\n"));
+                        }
+                        t.push_str("    return 0\n}\n");
+                        t.push_str(&format!("fn scrub{k}(x, depth) {{\n    let a = x + 1\n    let b = a + 2\n    let c = b + 3\n    let d = c + 4\n    let e = d + 5\n    let f = e + 6\n    let g = f + 7\n    let h = g + 8\n    if depth > 0 {{\n        return scrub{k}(h, depth - 1) + a + b + c + d + e + f + g\n    }}\n    return a + b + c + d + e + f + g + h\n}}\n"));
+                        t.push_str(&format!("fn run{k}() {{\n    return hc{k}_1()\n}}\nsetup{k}()\nprintln(scrub{k}(1, {}))\nprintln(run{k}())", 2 + self.rng.below(4)));
+                        p.push(t);
                     }
                     _ => {
                         // one-shot initialiser that replaces itself by a named function and recurses through the slot
@@ -541,6 +568,12 @@ mod imp {
                 if pre.vmst.stale_register_ptrs > 0 { hit("non-root:pointer-register-above-windows".into()); }
                 if !pre.vmst.globals_cache.is_empty() { hit("non-root:layout-snapshot-pointer".into()); }
                 if frame_only { hit("running-function-or-closure-rooted-by-frame-only".into()); }
+                {
+                    let orphans: BTreeSet<usize> = pre.frames.iter().filter_map(|f| f.closure).filter(|c| !reach_nf.contains(c)).collect();
+                    if orphans.len() >= 2 { hit("several-running-closures-rooted-by-their-frames-only".into()); }
+                    let distinct: BTreeSet<usize> = pre.frames.iter().filter_map(|f| f.closure).collect();
+                    if distinct.len() >= 2 { hit("root:frame-closures-of-several-frames".into()); }
+                }
                 let mut kinds = BTreeSet::new();
                 let mut labels = BTreeSet::new();
                 for &i in &reach_all {
